@@ -190,7 +190,7 @@ func (ec *evalCtx) evalMulti(e ast.Expr, n int) *TupleV {
 		return ec.evalTypeAssert(x, true).(*TupleV)
 	case *ast.IndexExpr:
 		if m, ok := ec.eval(x.X).(*MapV); ok {
-			k := scalar(ec.eval(x.Index))
+			k := keyTerm(ec.eval(x.Index))
 			return &TupleV{Vs: []Value{ec.mapGet(m, k), Select(m.Dom, k)}}
 		}
 	}
@@ -496,6 +496,8 @@ func (ec *evalCtx) eqValues(a, b Value) *Term {
 			return And(Eq(x.Tag, y.Tag), Eq(x.Id, y.Id))
 		case *Term:
 			return Eq(x.Id, y)
+		case *FuncV:
+			return Eq(x.Id, y.Id)
 		}
 	case *FuncV:
 		if y, ok := b.(*FuncV); ok {
@@ -648,7 +650,7 @@ func (ec *evalCtx) evalIndex(x *ast.IndexExpr) Value {
 		ec.oblige("bounds", And(Le(Int(0), i), Lt(i, StrLen(b))), x.Pos(), "index "+exprText(x))
 		return ByteAt(b, i)
 	case *MapV:
-		k := scalar(ec.eval(x.Index))
+		k := keyTerm(ec.eval(x.Index))
 		return ec.mapGet(b, k)
 	}
 	panic(unsupported("index of %T", base))
@@ -761,7 +763,7 @@ func (ec *evalCtx) evalCompositeLit(x *ast.CompositeLit) Value {
 		mv := ec.e().emptyMap(ec.st, u)
 		for _, el := range x.Elts {
 			kv := el.(*ast.KeyValueExpr)
-			k := scalar(ec.eval(kv.Key))
+			k := keyTerm(ec.eval(kv.Key))
 			mv = ec.mapSet(mv, k, ec.convertTo(ec.evalElt(kv.Value, u.Elem()), ec.info.TypeOf(kv.Value), u.Elem()))
 		}
 		return mv
@@ -865,7 +867,7 @@ func (ec *evalCtx) lvalue(e ast.Expr) lval {
 				set: func(v Value) { base.set(sliceUpdate(base.get().(*SliceV), i, v)) },
 			}
 		case *MapV:
-			k := scalar(ec.eval(x.Index))
+			k := keyTerm(ec.eval(x.Index))
 			ec.oblige("nilmap", Not(Eq(b.Ref, Int(0))), x.Pos(), "write to nil map "+exprText(x.X))
 			base := ec.lvalue(x.X)
 			return lval{
@@ -1073,4 +1075,22 @@ func (ec *evalCtx) evalConversion(call *ast.CallExpr, to types.Type) Value {
 		}
 	}
 	return ec.convertTo(v, from, to)
+}
+
+// keyTerm turns a map key value into a scalar term (pointers by object identity).
+func keyTerm(v Value) *Term {
+	switch x := v.(type) {
+	case *Term:
+		return x
+	case *PtrV:
+		if x.Obj < 0 {
+			return Int(0)
+		}
+		return Ite(x.Nil, Int(0), Int(int64(x.Obj)))
+	case *IfaceV:
+		return x.Id
+	case *FuncV:
+		return x.Id
+	}
+	panic(unsupported("map key of kind %T", v))
 }
